@@ -120,6 +120,8 @@ func execConc(op string, a []string) vlib.Res {
 		return execGate(a)
 	case "limrace":
 		return execLimRace(a)
+	case "expire":
+		return execExpire(a)
 	case "run":
 		if len(a) != 6 {
 			break
